@@ -28,6 +28,7 @@ type specEnv struct {
 	clause      *Clause
 	specDepth   int
 	callID      *Term
+	bound       map[string]bool // names bound by quantifiers / let: they shadow program variables
 }
 
 type specError struct{ msg string }
@@ -135,6 +136,11 @@ func (env *specEnv) bind(name string, v Value) *specEnv {
 		n.vars[k] = x
 	}
 	n.vars[name] = v
+	n.bound = make(map[string]bool, len(env.bound)+1)
+	for k := range env.bound {
+		n.bound[k] = true
+	}
+	n.bound[name] = true
 	return &n
 }
 
@@ -144,6 +150,11 @@ func (env *specEnv) pkg() *types.Package {
 
 func (env *specEnv) lookupIdent(name string) (Value, bool) {
 	ex := env.ex
+	if env.bound[name] {
+		if v, ok := env.vars[name]; ok {
+			return v, true
+		}
+	}
 	if env.preferCells && !env.calleeCtx {
 		if c, ok := ex.cellName[name]; ok {
 			if v, has := env.st.cells[c]; has {
@@ -1068,6 +1079,7 @@ func (ex *executor) applyUnfoldEnv(c *Clause, env *specEnv) {
 // ---------- locations ----------
 
 type locRef struct {
+	arr     *Term // backing array of an element / region location
 	classes []*HeapClass
 	key     []*Term
 	region  func(key []*Term) *Term // nil: exact key
@@ -1193,7 +1205,7 @@ func (env *specEnv) locOf(e ast.Expr) []*locRef {
 			cs := ex.eng.leafClasses("elem", u.Elem(), "")
 			arr, off := x.C[0], x.C[1]
 			l, h := BVBin("bvadd", off, lo), BVBin("bvadd", off, hi)
-			return []*locRef{{classes: cs, region: func(key []*Term) *Term {
+			return []*locRef{{arr: arr, classes: cs, region: func(key []*Term) *Term {
 				return And(Eq(key[0], arr), BVCmp("bvsle", l, key[1]), BVCmp("bvslt", key[1], h))
 			}}}
 		case *types.Map:
@@ -1268,6 +1280,16 @@ func (env *specEnv) ghostRef(g *GhostDecl, argExprs []ast.Expr) ([]*HeapClass, [
 
 func (ex *executor) havocLoc(st *state, l *locRef, bound *Term) {
 	for _, c := range l.classes {
+		if c.Name == byteClassName {
+			if l.region == nil {
+				ex.bumpVer(st, l.key[0])
+			} else if l.arr != nil {
+				ex.bumpVer(st, l.arr)
+			} else {
+				vc := ex.verClass()
+				st.heaps[vc.Name] = ex.heapOf(st, vc).Havoc(ex.fresh("ver"), nil)
+			}
+		}
 		h := ex.heapOf(st, c)
 		if l.region != nil {
 			nh := h.Havoc(ex.fresh("fr"), l.region)
@@ -1298,6 +1320,19 @@ func (ex *executor) havocLoc(st *state, l *locRef, bound *Term) {
 // assignClasses: class names possibly written according to a contract's assigns clause
 // (type-level evaluation on a scratch state).
 func (ex *executor) assignClasses(c *Contract, callee *ssa.Function) []string {
+	names := paramNames(callee)
+	sig := callee.Signature
+	var ptypes []types.Type
+	if sig.Recv() != nil {
+		ptypes = append(ptypes, sig.Recv().Type())
+	}
+	for i := 0; i < sig.Params().Len(); i++ {
+		ptypes = append(ptypes, sig.Params().At(i).Type())
+	}
+	return ex.assignClassesFor(c, names, ptypes)
+}
+
+func (ex *executor) assignClassesFor(c *Contract, names []string, ptypes []types.Type) []string {
 	var out []string
 	func() {
 		defer func() {
@@ -1312,15 +1347,6 @@ func (ex *executor) assignClasses(c *Contract, callee *ssa.Function) []string {
 		scratch := &state{pc: True, cells: map[*cellRef]Value{}, heaps: map[string]*Heap{}, alloc: Var("alloc.scratch", IntSort)}
 		scratch.epochs = []epochAlt{{sel: True, tag: "scratch", bound: scratch.alloc}}
 		vars := map[string]Value{}
-		names := paramNames(callee)
-		sig := callee.Signature
-		var ptypes []types.Type
-		if sig.Recv() != nil {
-			ptypes = append(ptypes, sig.Recv().Type())
-		}
-		for i := 0; i < sig.Params().Len(); i++ {
-			ptypes = append(ptypes, sig.Params().At(i).Type())
-		}
 		for i, n := range names {
 			if i < len(ptypes) {
 				vars[n] = freshValue("scr."+n, ptypes[i])
